@@ -815,6 +815,15 @@ def run_nnlinker(ctx, impl, mev, rng, nmax, count):
         if rng.random() < 0.3:
             index = sorted(rng.sample(range(r_), rng.randint(1, r_)))
         args = dict(m=mspec(g), n_neighbors=nn_, threshold=thr, index=index)
+        if k % 3 == 2:
+            # signed embedding (what Spectral / SVD / GSVD give): similarities of both signs, thresholds <= 0 included
+            n_all = r_ + c_ if g['bip'] else r_
+            dim = rng.choice([2, 2, 3])
+            fe = [[rng.randint(-8, 8) / 4 for _ in range(dim)] for _ in range(n_all)]
+            fe = [row if any(row) else [1.0] + row[1:] for row in fe]
+            args['fixed_embedding'] = fe
+            args['threshold'] = thr = rng.choice([0, 0, 0, -0.5, 0.1, 0.3])
+            g = dict(g, family='signed_embedding:' + g['family'])
         r = impl.call('c13', 'nnlinker', args, timeout=20)
         ctx.traces += 1
         ctx.count('NNLinker:' + g['family'].split(':')[0], ('nl', args), True)
@@ -984,7 +993,9 @@ def run_label_range(ctx, impl, mev, rng, count):
         n = g['shape'][0]
         vec = [-1] * n
         a, b = rng.sample(range(n), 2)
-        vec[a], vec[b] = n + rng.randint(0, 3), 2 * n + rng.randint(0, 40)
+        # two DIFFERENT classes (the property quantifies over seed sets with at least two classes; with a single class
+        # get_adjacency_values documents a clustering mode that relabels every node)
+        vec[a], vec[b] = n + rng.randint(0, 3), 2 * n + 4 + rng.randint(0, 40)
         kw, form = seed_forms(rng, g, vec)
         cases.append(dict(fam='label_range', g=g, vec=vec, kw=kw, form=form, weighted=rng.random() < 0.5, node_order=None,
                           n_iter=rng.choice([2, 5])))
